@@ -85,7 +85,7 @@ theorem le16 (x : Nat) (h : x < 65536) : x % 256 + 256 * (x / 256 % 256) = x := 
 
 theorem processRx_req (rb : Bool) (ga gb : Option Nat) (now : Nat) :
     (Session.fresh false rb).processRx gb (reqBytes ga) now =
-      .ok ((Session.fresh false rb).setup 4 (negMtu ga gb rb) (negWin ga gb rb)) := by
+      .ok ((Session.fresh false rb).setup 4 (negMtu ga gb rb) (negWin ga gb rb) 0) := by
   have hb := announcedMtu_bounds ga
   obtain ⟨m1, m2⟩ := negMtu_bounds ga gb rb
   have hp := negPar ga gb rb
@@ -119,10 +119,11 @@ theorem processRx_req (rb : Bool) (ga gb : Option Nat) (now : Nat) :
   rw [hw]
   have : ¬ (negWin ga gb rb = 0) := by have := hp.w1; omega
   simp only [this, if_false]
+  rfl
 
 theorem prepTxHandshake_resp (rb : Bool) (gb : Option Nat) (M W now : Nat) (hw : 1 ≤ W) :
-    ((Session.fresh false rb).setup 4 M W).prepTxHandshake gb now =
-      .ok ({ (Session.fresh false rb).setup 4 M W with
+    ((Session.fresh false rb).setup 4 M W 0).prepTxHandshake gb now =
+      .ok ({ (Session.fresh false rb).setup 4 M W 0 with
               send := { windowSize := W, level := W - 1, lastSent := 0, sentAt := some now },
               handshakePending := false }, respBytes M W) := by
   unfold Session.prepTxHandshake
@@ -132,7 +133,7 @@ theorem prepTxHandshake_resp (rb : Bool) (gb : Option Nat) (M W now : Nat) (hw :
   simp only [respBytes]
 
 theorem processRx_resp (ra : Bool) (g : Option Nat) (M W now : Nat) (hp : POk W M) :
-    (initSent ra).processRx g (respBytes M W) now = .ok ((initSent ra).setup 4 M W) := by
+    (initSent ra).processRx g (respBytes M W) now = .ok ((initSent ra).setup 4 M W now) := by
   unfold Session.processRx respBytes
   rw [decode_hs]
   simp only
@@ -292,7 +293,9 @@ structure Ph3 (ra : Bool) (ga gb : Option Nat) (W M : Nat) (dq : List (List Nat)
   pend : l.b.e.s.handshakePending = false
   w : l.b.e.s.windowSize = W
   m : l.b.e.s.mtu = M
-  d1 : DirOk W M l.b.e.s.send { level := W, ackSeq := 0 } {} dq []
+  /-- against the receive window the initiator will have when it accepts the response at instant `t`:
+  the response counts as its received, unacknowledged segment number 0 -/
+  d1 : ∀ t, DirOk W M l.b.e.s.send { level := W - 1, ackLevel := 1, ackSeq := 0, receivedAt := some t } {} dq []
   d2 : DirOk W M { windowSize := W, level := W } l.b.e.s.recv {} [] dq
   q : feedAll {} dq = l.b.tx
 
@@ -303,7 +306,7 @@ inductive Phase (ra rb : Bool) (ga gb : Option Nat) (l : LMon) : Prop
   | p1 (pre : Pre ga gb l) (sa : l.a.e.s = initSent ra) (sb : l.b.e.s = Session.fresh false rb)
       (qab : l.qab = [reqBytes ga]) (qba : l.qba = []) (bTx : l.b.tx = {})
   | p2 (pre : Pre ga gb l) (sa : l.a.e.s = initSent ra)
-      (sb : l.b.e.s = (Session.fresh false rb).setup 4 (negMtu ga gb rb) (negWin ga gb rb))
+      (sb : l.b.e.s = (Session.fresh false rb).setup 4 (negMtu ga gb rb) (negWin ga gb rb) 0)
       (qab : l.qab = []) (qba : l.qba = []) (bTx : l.b.tx = {})
   | p3 (dq : List (List Nat)) (h : Ph3 ra ga gb (negWin ga gb rb) (negMtu ga gb rb) dq l)
   | sync (h : Sync (negWin ga gb rb) (negMtu ga gb rb) l)
@@ -337,14 +340,15 @@ theorem afterTx_frame (s : Session) (now : Nat) :
     (s.afterTx now).mtu = s.mtu ∧ (s.afterTx now).handshakePending = s.handshakePending :=
   ⟨rfl, rfl, rfl, rfl⟩
 
-theorem d1_init {W M : Nat} (hp : POk W M) (t : Option Nat) :
-    DirOk W M { windowSize := W, level := W - 1, lastSent := 0, sentAt := t } { level := W, ackSeq := 0 } {} [] [] := by
+theorem d1_init {W M : Nat} (hp : POk W M) (t : Option Nat) (t' : Nat) :
+    DirOk W M { windowSize := W, level := W - 1, lastSent := 0, sentAt := t }
+      { level := W - 1, ackLevel := 1, ackSeq := 0, receivedAt := some t' } {} [] [] := by
   have := hp.w1
   constructor <;> (try simp only [List.length_nil, AckChain, DataChain, Tight, lastAck]) <;>
-    first | trivial | omega | rfl | (intro h; cases h)
+    first | trivial | omega | rfl | (intro _; rfl) | (intro h; cases h)
 
 theorem d2_init {W M : Nat} (hp : POk W M) (rb : Bool) :
-    DirOk W M { windowSize := W, level := W } ((Session.fresh false rb).setup 4 M W).recv {} [] [] := by
+    DirOk W M { windowSize := W, level := W } ((Session.fresh false rb).setup 4 M W 0).recv {} [] [] := by
   have := hp.w1
   constructor <;>
     (try simp only [Session.setup, Session.fresh, Bool.false_eq_true, if_false, List.length_nil, AckChain, DataChain,
@@ -438,12 +442,12 @@ theorem phase_step_adv {ra rb : Bool} {ga gb : Option Nat} {l : LMon} (hl : LInv
     · -- the responder accepts the request
       subst hop
       left
-      have hin : l.b.e.processIncoming (reqBytes ga) l.now = .ok { l.b.e with s := (Session.fresh false rb).setup 4 (negMtu ga gb rb) (negWin ga gb rb) } := by
-        have h1 : l.b.e.s.processRx l.b.e.gattMtu (reqBytes ga) l.now = .ok ((Session.fresh false rb).setup 4 (negMtu ga gb rb) (negWin ga gb rb)) := by
+      have hin : l.b.e.processIncoming (reqBytes ga) l.now = .ok { l.b.e with s := (Session.fresh false rb).setup 4 (negMtu ga gb rb) (negWin ga gb rb) 0 } := by
+        have h1 : l.b.e.s.processRx l.b.e.gattMtu (reqBytes ga) l.now = .ok ((Session.fresh false rb).setup 4 (negMtu ga gb rb) (negWin ga gb rb) 0) := by
           rw [sb, pre.gB, processRx_req]
         unfold End.processIncoming
         rw [h1]
-      have hstep : l.step (.deliver .b) = .ok ({ l with b := { l.b with e := { l.b.e with s := (Session.fresh false rb).setup 4 (negMtu ga gb rb) (negWin ga gb rb) }, rs := {}, fetched := l.b.fetched.take 0 }, qab := [] }, .delivered) := by
+      have hstep : l.step (.deliver .b) = .ok ({ l with b := { l.b with e := { l.b.e with s := (Session.fresh false rb).setup 4 (negMtu ga gb rb) (negWin ga gb rb) 0 }, rs := {}, fetched := l.b.fetched.take 0 }, qab := [] }, .delivered) := by
         simp only [LMon.step, LMon.inq, qab, LMon.get, Mon.step, hin]
         simp only [reqBytes, ghostRx_hs]
         rfl
@@ -485,7 +489,7 @@ theorem phase_step_adv {ra rb : Bool} {ga gb : Option Nat} {l : LMon} (hl : LInv
         rfl
       refine ⟨_, _, hstep, .p3 [] ?_, by simp [HsAdv, hsRank, sa, sb, Session.fresh, initSent, Session.setup]⟩
       refine ⟨⟨pre.gA, pre.gB, pre.txA, txRep_congr (e := l.b.e) rfl rfl pre.txB, pre.aTx, pre.rsA, pre.rsB, pre.fA, pre.fB⟩,
-        sa, qab, by simp only [qba]; rfl, hpar, ?_, rfl, ?_, ?_, d1_init hpar _, ?_, by simp only [bTx]; rfl⟩
+        sa, qab, by simp only [qba]; rfl, hpar, ?_, rfl, ?_, ?_, fun t => d1_init hpar _ t, ?_, by simp only [bTx]; rfl⟩
       · show l.b.e.s.established = true
         rw [sb]; rfl
       · show l.b.e.s.windowSize = _
@@ -543,9 +547,10 @@ theorem phase_step_adv {ra rb : Bool} {ga gb : Option Nat} {l : LMon} (hl : LInv
         · show e'.s.established = true; rw [he', f1]; exact h.est
         · show e'.s.windowSize = _; rw [he', f2]; exact h.w
         · show e'.s.mtu = _; rw [he', f3]; exact h.m
-        · show DirOk _ _ e'.s.send _ _ _ _
+        · intro t
+          show DirOk _ _ e'.s.send _ _ _ _
           rw [he']
-          refine dirOk_emit h.d1 hlv hdec ?_ (some l.now)
+          refine dirOk_emit (h.d1 t) hlv hdec ?_ (some l.now)
           rw [h.q]; exact hok
         · show DirOk _ _ _ e'.s.recv _ _ _
           rw [he']
@@ -559,10 +564,10 @@ theorem phase_step_adv {ra rb : Bool} {ga gb : Option Nat} {l : LMon} (hl : LInv
         subst hop2
         left
         have hW := h.par
-        have hin : l.a.e.processIncoming (respBytes (negMtu ga gb rb) (negWin ga gb rb)) l.now = .ok { l.a.e with s := (initSent ra).setup 4 (negMtu ga gb rb) (negWin ga gb rb) } := by
+        have hin : l.a.e.processIncoming (respBytes (negMtu ga gb rb) (negWin ga gb rb)) l.now = .ok { l.a.e with s := (initSent ra).setup 4 (negMtu ga gb rb) (negWin ga gb rb) l.now } := by
           unfold End.processIncoming
           rw [h.sa, processRx_resp ra _ _ _ _ hW]
-        have hstep : l.step (.deliver .a) = .ok ({ l with a := { l.a with e := { l.a.e with s := (initSent ra).setup 4 (negMtu ga gb rb) (negWin ga gb rb) }, rs := {}, fetched := l.a.fetched.take 0 }, qba := dq }, .delivered) := by
+        have hstep : l.step (.deliver .a) = .ok ({ l with a := { l.a with e := { l.a.e with s := (initSent ra).setup 4 (negMtu ga gb rb) (negWin ga gb rb) l.now }, rs := {}, fetched := l.a.fetched.take 0 }, qba := dq }, .delivered) := by
           simp only [LMon.step, LMon.inq, h.qba, LMon.get, Mon.step, hin]
           simp only [respBytes, ghostRx_hs]
           rfl
@@ -577,17 +582,17 @@ theorem phase_step_adv {ra rb : Bool} {ga gb : Option Nat} {l : LMon} (hl : LInv
             · show feedAll l.b.rs l.qab = l.a.tx
               rw [h.qab, h.pre.rsB, h.pre.aTx]; rfl
           · refine ⟨h.pend, h.pre.txB, ?_, ?_⟩
-            · exact dataChain_noHs h.d1.chain
+            · exact dataChain_noHs (h.d1 0).chain
             · show feedAll {} dq = l.b.tx
               exact h.q
-        · show DirOk _ _ ((initSent ra).setup 4 _ _).send l.b.e.s.recv l.b.rs l.qab dq
+        · show DirOk _ _ ((initSent ra).setup 4 _ _ _).send l.b.e.s.recv l.b.rs l.qab dq
           rw [h.qab, h.pre.rsB]; exact h.d2
-        · show DirOk _ _ l.b.e.s.send ((initSent ra).setup 4 _ _).recv {} dq l.qab
-          rw [h.qab]; exact h.d1
+        · show DirOk _ _ l.b.e.s.send ((initSent ra).setup 4 _ _ _).recv {} dq l.qab
+          rw [h.qab]; exact h.d1 l.now
         · -- the initiator's send window is completely open
           rintro ⟨h0, _⟩
-          have : ((initSent ra).setup 4 (negMtu ga gb rb) (negWin ga gb rb)).send.level = negWin ga gb rb := rfl
-          have h0' : ((initSent ra).setup 4 (negMtu ga gb rb) (negWin ga gb rb)).send.level = 0 := h0
+          have : ((initSent ra).setup 4 (negMtu ga gb rb) (negWin ga gb rb) l.now).send.level = negWin ga gb rb := rfl
+          have h0' : ((initSent ra).setup 4 (negMtu ga gb rb) (negWin ga gb rb) l.now).send.level = 0 := h0
           have := hW.w1
           omega
       · apply idle
